@@ -327,14 +327,19 @@ def run(tier, seed):
     pf = os.path.join(wd, "progs.ndjson")
     core.write_ndjson(pf, [{"pid": p["pid"], "params": lt.PARAMS, "locals": p["locals"], "body": p["body"], "ty": p["ty"],
                             "mk": p["mk"], "lmk": p["lmk"], "inputs": [[lt.e_lit(v) for v in inp] for inp in p["inputs"]]} for p in progs])
-    r = core.tlc("TypeInfer", "TypeInfer_run", workers=WORKERS, env={"PROGS": pf}, coverage=True, timeout=cfg["tlc_timeout"], heap="6g")
+    r = core.tlc("TypeInfer", "TypeInfer_run", workers=WORKERS, env={"PROGS": pf}, timeout=cfg["tlc_timeout"], heap="6g")
     if not r.ok:
         sys.stderr.write(r.out[-5000:])
         core.die("TLC (run phase) failed: %s" % (r.violation or r.rc))
     timing["tlc_run"] = time.time() - t0
     cov["tlc"].append(dict(r.summary(), config="TypeInfer_run", what="%d programs, every input, every loop iteration" % len(progs), exhaustive=True))
-    act = {a: r.coverage.get(a, (0, 0))[1] for a in RUN_ACTIONS + ["StepFallOff", "OverBudget"]}
-    cov["action_coverage"] = act
+    act = collections.Counter()          # the spec records the actions of every behaviour (TLC's -coverage is unusably slow on this module)
+    for rec in r.printed:
+        if rec.get("static"):
+            act["StaticStep"] += 1
+        for a in rec.get("acts") or ():
+            act[a] += 1
+    cov["action_coverage"] = dict(act)
     vac = [a for a in RUN_ACTIONS if not act.get(a)]
     if vac:
         core.die("vacuous model: actions never taken: %s" % vac)
@@ -374,6 +379,7 @@ def run(tier, seed):
     samples = []
     nontrivial = set()
     selftest_pool = []
+    notes = []
     for p in progs:
         stc = p["static"]
         st["programs"] += 1
@@ -381,6 +387,10 @@ def run(tier, seed):
         st["mark_mismatch"] += (not stc["mark_ok"])
         for v, verdict in (stc["span"] or {}).items():
             st["span_" + verdict.split(":")[0]] += 1
+            if verdict.startswith("mismatch"):
+                notes.append("span %s %s %s: %s" % (p["fam"], v, verdict, p["src"].replace("\n", " ; ")[:400]))
+        if not stc["frag"] or not stc["mark_ok"]:
+            notes.append("frag=%s mark_ok=%s marks=%s real=%s lmarks=%s real=%s %s: %s" % (stc["frag"], stc["mark_ok"], stc["marks"], p["mk"], stc["lmarks"], p["lmk"], p["fam"], p["src"].replace("\n", " ; ")[:400]))
         for k, inp in enumerate(p["inputs"]):
             s = p["S"][k + 1]
             spec = lt.from_spec(s["out"])
@@ -390,6 +400,9 @@ def run(tier, seed):
             st["decided" if decided else "partly_decided"] += 1
             if not ok:
                 rep.spec_drift("reference semantics vs CPython", {"src": p["src"], "input": repr(inp), "spec": repr(spec)[:300], "python": repr(pobs)[:300]})
+                continue
+            if spec == lt.UND:
+                st["undecided_by_model"] += 1       # the model stopped (value outside its bounds): no judgement on this case
                 continue
             hzs = sorted({(h["h"], h["c"]) for h in s["hz"]})
             for h in hzs:
@@ -458,4 +471,6 @@ def run(tier, seed):
                                      "inputs whose CPython run exceeds 0.4 s are not replayed"],
                         violations=rep.n_violations())
     sys.stderr.write("c40: %s\n" % json.dumps(dict(st)))
+    if os.environ.get("C40_NOTES"):
+        sys.stderr.write("\n".join(notes) + "\n")
     return rc
